@@ -552,7 +552,7 @@ fn typed_keys(ctx: &Arc<Ctx>) {
 		}
 		counter.load(std::sync::atomic::Ordering::Relaxed)
 	}
-	let ranges = vec![ByteRange::new(100, 10), ByteRange::new(100, 20), ByteRange::new(110, 10), ByteRange::new(0, 10), ByteRange::new(100, 0)];
+	let ranges = vec![ByteRange::new(100, 10), ByteRange::new(100, 20), ByteRange::new(110, 10), ByteRange::new(0, 10), ByteRange::new(100, 0), ByteRange::new(0, 0), ByteRange::new(110, 0)];
 	let n1 = run_all(ctx, "ByteRange keys", &ranges, &|r: &ByteRange| format!("[{}+{}]", r.offset, r.length));
 	let coords = vec![TileCoord3 { x: 1, y: 0, z: 2 }, TileCoord3 { x: 5, y: 0, z: 2 }, TileCoord3 { x: 1, y: 4, z: 2 }, TileCoord3 { x: 1, y: 0, z: 3 }, TileCoord3 { x: 0, y: 0, z: 0 }, TileCoord3 { x: 1, y: 0, z: 0 }];
 	let n2 = run_all(ctx, "TileCoord3 keys", &coords, &|c: &TileCoord3| format!("({},{},{})", c.z, c.x, c.y));
